@@ -29,6 +29,9 @@ type Prog struct {
 	Files   []*ast.File           // non-test files of the root package
 	parents map[ast.Node]ast.Node
 	NLoaded int // number of packages loaded (root module)
+	// Rename maps parameters and receivers to the names they had on the reviewed
+	// tree (set by the rules package); canonical strings use those names.
+	Rename map[types.Object]string
 }
 
 // Func is a declared function or method of the root package.
@@ -349,4 +352,58 @@ func (p *Prog) EnclosingDecl(n ast.Node) *Func {
 		}
 	}
 	return nil
+}
+
+// LocalsOf lists the local variables a function declares (parameters,
+// receivers and named results excluded; function literals included), in
+// declaration order.
+func LocalsOf(p *Prog, f *Func) []*types.Var {
+	param := map[types.Object]bool{}
+	mark := func(fl *ast.FieldList) {
+		if fl == nil {
+			return
+		}
+		for _, fld := range fl.List {
+			for _, n := range fld.Names {
+				param[p.Info.Defs[n]] = true
+			}
+		}
+	}
+	mark(f.Decl.Recv)
+	mark(f.Decl.Type.Params)
+	mark(f.Decl.Type.Results)
+	var out []*types.Var
+	seen := map[types.Object]bool{}
+	if f.Decl.Body == nil {
+		return nil
+	}
+	ast.Inspect(f.Decl.Body, func(n ast.Node) bool {
+		if fl, ok := n.(*ast.FuncLit); ok {
+			mark(fl.Type.Params)
+			mark(fl.Type.Results)
+		}
+		id, ok := n.(*ast.Ident)
+		if !ok || id.Name == "_" {
+			return true
+		}
+		o, ok := p.Info.Defs[id].(*types.Var)
+		if !ok || o == nil || o.IsField() || param[o] || seen[o] {
+			return true
+		}
+		seen[o] = true
+		out = append(out, o)
+		return true
+	})
+	sort.SliceStable(out, func(i, j int) bool { return out[i].Pos() < out[j].Pos() })
+	return out
+}
+
+// TypeStr renders a type with package-name qualifiers.
+func TypeStr(p *Prog, t types.Type) string {
+	return types.TypeString(t, func(pk *types.Package) string {
+		if pk == p.Types {
+			return ""
+		}
+		return pk.Name()
+	})
 }
